@@ -548,7 +548,8 @@ impl ExprTypeChecker<'_, '_> {
             )));
         }
 
-        zip!(1.., args, &siggy.params).map(|(param_num, arg, param)| {
+        // (parameters with a default, i.e. padding, take no argument; see `Signature::min_args`)
+        zip!(1.., args, siggy.params.iter().filter(|param| param.default.is_none())).map(|(param_num, arg, param)| {
             let arg_ty = self.check_expr_as_value(arg, name.span)?;
             if let VarType::Typed(param_ty) = param.ty.value {
                 if arg_ty != param_ty {
